@@ -1060,7 +1060,7 @@ PROPS = {
         level="other",
         explanation="Union-find operations, Kruskal's greedy step and loop, the root choice / per-call resets and the local lowest-pass step of "
                     "connect_basins are decided by unbounded contracts (ghost-element idiom); that the resulting tree is a MINIMUM spanning tree is "
-                    "Kruskal's theorem on top of these (unmechanised); Boruvka, edge orientation and the global lowest-pass statement are not covered.",
+                    "Kruskal's theorem on top of these (unmechanised); the global lowest-pass statement is not covered.",
         assumptions=UF_MODEL_ASSUMPTIONS + [
             "union_find representation invariant UF_CHAIN(i) (parent inside the universe and in the same class; fixed point <=> own representative; "
             "DEPTH 0 at roots, strictly decreasing along parent) is a forall-i invariant of the object: proved for an arbitrary ghost element by every "
@@ -1098,9 +1098,8 @@ PROPS = {
             "(nodes of one basin are contiguous in dfs_indices, basin ids increase along it) -- not mechanised",
         ],
         undecided=[
-            "compute_tree_boruvka (460-702): not under contract (the degree > 16 path cannot be reached by any bound CBMC can unwind)",
-            "orient_edges (711-819): not under contract; `every tree edge points away from the root`, spanning-ness and |tree| == basins-1 are reachability/"
-            "counting statements",
+            "compute_tree_boruvka / orient_edges: see the entries of spec/boruvka.py and spec/orient.py below (set-up phase and step lemmas unbounded, whole-function "
+            "clauses bounded); spanning-ness and |tree| == basins-1 are reachability / counting statements",
             "Kruskal == Boruvka weight; tree spans all basins reachable from the root",
             "tree entries are in non-decreasing weight order (needs a slot -> position ghost map; not done)",
             "loop-level Kruskal clauses with the full step contract (groups basin.kruskal.loop.tree / .classes, thorough tier: `after the scan the "
@@ -1112,7 +1111,8 @@ PROPS = {
         level="other",
         explanation="basin-graph part of C09 only: compute_tree_kruskal and connect_basins are proved with ARBITRARY pre-state of every scratch member "
                     "(m_tree, m_edges_indices, union-find, m_root, m_edges, m_edge_positions, m_edge_positions_tmp), so their contracts cannot depend on earlier calls.",
-        undecided=["orient_edges / compute_tree_boruvka scratch vectors (m_low_degrees, m_large_degrees ...) not covered"],
+        undecided=["compute_tree_boruvka degree lists (m_low_degrees, m_large_degrees) are never cleared by the function: history independence rests on `both empty at exit`, "
+                   "proved only for the re-queue decision (boruvka.main.requeue) and re-established on all graphs within the bounded groups"],
     ),
     "C01": dict(
         level="other",
@@ -1126,7 +1126,7 @@ PROPS = {
             "incoming edge) -- instance at the pair (ghost slot, current slot); producer orient_edges is not under contract",
             "outflow / inflow indices are read from the static constexpr members of the operator implementation on every run",
         ],
-        undecided=["update_routes_sinks_carve (292-334): not under contract (the while loop walks a receiver path of unbounded length; needs a path ghost)",
+        undecided=["update_routes_sinks_carve (292-334): one tree edge is under contract (spec/orient.py, ghost chain); the loop over the tree is not",
                    "that the re-routed forest is acyclic and rooted at base levels is a reachability statement (bounded pipeline group not built)"],
     ),
 }
